@@ -128,6 +128,49 @@ func BuildParserModel(p *Program, fd *ast.FuncDecl) *ParserModel {
 		return m
 	}
 	i++
+	// sections are bare blocks `{ src := r.URL.Query(); {…} {…} }` or, flattened, the source binding
+	// followed by its parameter blocks up to the next section: regroup the flattened form
+	{
+		r := c.req.Name()
+		isSrc := func(st ast.Stmt) bool {
+			as, ok := st.(*ast.AssignStmt)
+			if !ok || as.Tok != token.DEFINE || len(as.Lhs) != 1 || len(as.Rhs) != 1 {
+				return false
+			}
+			switch types.ExprString(as.Rhs[0]) {
+			case r + ".URL.Query()", r + ".Header", r + ".URL.Path":
+				return true
+			}
+			return false
+		}
+		var regrouped []ast.Stmt
+		regrouped = append(regrouped, list[:i]...)
+		for k := i; k < len(list); k++ {
+			if !isSrc(list[k]) || k == len(list)-1 {
+				regrouped = append(regrouped, list[k])
+				continue
+			}
+			src := identObj(info, list[k].(*ast.AssignStmt).Lhs[0])
+			grp := []ast.Stmt{list[k]}
+			j := k + 1
+			for ; j < len(list)-1; j++ {
+				// the section's statements: parameter blocks, and for the path section everything
+				// that works on the cursor (guards and strips mention it)
+				if _, isBlk := list[j].(*ast.BlockStmt); isBlk {
+					grp = append(grp, list[j])
+					continue
+				}
+				if src != nil && usesObj(info, list[j], src) && !isSrc(list[j]) {
+					grp = append(grp, list[j])
+					continue
+				}
+				break
+			}
+			regrouped = append(regrouped, &ast.BlockStmt{Lbrace: grp[0].Pos(), List: grp, Rbrace: grp[len(grp)-1].End()})
+			k = j - 1
+		}
+		list = regrouped
+	}
 	for ; i < len(list)-1; i++ {
 		switch st := list[i].(type) {
 		case *ast.BlockStmt:
@@ -143,6 +186,24 @@ func BuildParserModel(p *Program, fd *ast.FuncDecl) *ParserModel {
 				if types.ExprString(st.Lhs[0]) == c.params.Name()+".Body" && types.ExprString(st.Rhs[0]) == c.req.Name()+".Body" && st.Tok == token.ASSIGN {
 					m.Body = "reader"
 					continue
+				}
+				// err := <helper>(r, &params.Body) with a helper that is json.NewDecoder(r.Body).Decode(v)
+				if call, ok := st.Rhs[0].(*ast.CallExpr); ok && len(call.Args) == 2 && identObj(info, call.Args[0]) == c.req {
+					if u, ok := call.Args[1].(*ast.UnaryExpr); ok && u.Op == token.AND && types.ExprString(u.X) == c.params.Name()+".Body" {
+						if fo, ok := typeutil.Callee(info, call).(*types.Func); ok && jsonBodyDecoderHelper(c.p, fo) {
+							errObj := identObj(info, st.Lhs[0])
+							if i+1 < len(list)-1 {
+								if ifs, ok := list[i+1].(*ast.IfStmt); ok && condTestsErrG(info, ifs.Cond, errObj) && c.isReject(ifs.Body.List) {
+									m.Body = "json"
+									m.BodyType = info.TypeOf(u.X)
+									i++
+									continue
+								}
+							}
+							c.und("request body decode error is not tested and returned")
+							continue
+						}
+					}
 				}
 				if call, ok := st.Rhs[0].(*ast.CallExpr); ok && calleeName(info, call) == "encoding/json.Decoder.Decode" && len(call.Args) == 1 {
 					okDec := false
@@ -1231,4 +1292,65 @@ func handlerInfos(p *Program) []*handlerInfo {
 	}
 	sort.Slice(out, func(i, j int) bool { return out[i].TypeName < out[j].TypeName })
 	return out
+}
+
+// jsonBodyDecoderHelper: func(r *http.Request, v any) error that decodes r.Body into v with
+// encoding/json and returns nil exactly when Decode did: apart from `defer r.Body.Close()` its body is
+//
+//	err := json.NewDecoder(r.Body).Decode(v); if err != nil { return <non-nil error> }; return nil
+//
+// or the single `return json.NewDecoder(r.Body).Decode(v)`.
+func jsonBodyDecoderHelper(p *Program, fo *types.Func) bool {
+	fd := declOfObj(p, fo)
+	if fd == nil || fd.Recv != nil || fd.Body == nil {
+		return false
+	}
+	info := p.Pkg.TypesInfo
+	ps := paramObjs(info, fd)
+	sig := fo.Type().(*types.Signature)
+	if len(ps) != 2 || sig.Results().Len() != 1 || !types.Identical(sig.Results().At(0).Type(), errType) {
+		return false
+	}
+	r, v := ps[0], ps[1]
+	isDecode := func(e ast.Expr) bool {
+		call, ok := ast.Unparen(e).(*ast.CallExpr)
+		if !ok || calleeName(info, call) != "encoding/json.Decoder.Decode" || len(call.Args) != 1 || identObj(info, call.Args[0]) != v {
+			return false
+		}
+		sel, ok := call.Fun.(*ast.SelectorExpr)
+		if !ok {
+			return false
+		}
+		nd, ok := sel.X.(*ast.CallExpr)
+		return ok && calleeName(info, nd) == "encoding/json.NewDecoder" && len(nd.Args) == 1 && types.ExprString(nd.Args[0]) == r.Name()+".Body"
+	}
+	var list []ast.Stmt
+	for _, st := range fd.Body.List {
+		if df, ok := st.(*ast.DeferStmt); ok && types.ExprString(df.Call) == r.Name()+".Body.Close()" {
+			continue
+		}
+		list = append(list, st)
+	}
+	switch len(list) {
+	case 1:
+		ret, ok := list[0].(*ast.ReturnStmt)
+		return ok && len(ret.Results) == 1 && isDecode(ret.Results[0])
+	case 3:
+		as, ok1 := list[0].(*ast.AssignStmt)
+		ifs, ok2 := list[1].(*ast.IfStmt)
+		ret, ok3 := list[2].(*ast.ReturnStmt)
+		if !ok1 || !ok2 || !ok3 || len(as.Lhs) != 1 || len(as.Rhs) != 1 || !isDecode(as.Rhs[0]) {
+			return false
+		}
+		eo := identObj(info, as.Lhs[0])
+		if !condTestsErrG(info, ifs.Cond, eo) || ifs.Else != nil || len(ifs.Body.List) != 1 {
+			return false
+		}
+		ir, ok := ifs.Body.List[0].(*ast.ReturnStmt)
+		if !ok || len(ir.Results) != 1 || isNilIdent(ir.Results[0]) {
+			return false
+		}
+		return len(ret.Results) == 1 && (isNilIdent(ret.Results[0]) || identObj(info, ret.Results[0]) == eo)
+	}
+	return false
 }
